@@ -814,3 +814,77 @@ def members_unbounded(c):
         ct = doc.get_schema_info(app.interface.get_namespace_prefix(TNS)).types['H2']
         e = ct.find('{%s}sequence' % XSD)[0]
         c.check('unbounded_spelled', e.get('maxOccurs') == 'unbounded' and e.get('minOccurs') == '0', detail=etree.tostring(e))
+
+
+# ---------------------------------------------------------------------------------------------------------
+# lexical forms: the datatype itself is a constraint both validators implement
+from spyne.model.primitive import Uuid          # noqa: E402
+
+LEXICAL = OrderedDict([
+    ('Integer', (lambda: Integer, ['5', '+5', '05', ' 5 ', '5 ', '\n5', '5.0', '1e3', '0x10', '', '-0', '--5', u'٥', '5_000',
+                                   '1' * 30])),
+    ('Integer8', (lambda: Integer8, ['+127', '0127', '128', ' 127', '-0128'])),
+    ('Decimal', (lambda: Decimal, ['1.5', '+1.5', '.5', '5.', '1e3', '1E+3', ' 1.5 ', 'NaN', 'Infinity', 'inf', '1,5', '', '1.5.5',
+                                   u'١.٥', '-.5'])),
+    ('Double', (lambda: Double, ['1.5', '1e3', '1E3', '.5', '5.', 'INF', '-INF', 'NaN', 'inf', 'nan', 'Infinity', '+INF', ' 1.5 ',
+                                 '1_0', '0x1p3', ''])),
+    ('Boolean', (lambda: Boolean, ['true', 'false', '1', '0', 'True', 'TRUE', ' true ', '', 'yes'])),
+    ('Date', (lambda: Date, ['2020-02-29', '2020-02-30', '2020-2-9', '20200229', '2020-02-29Z', '2020-02-29+05:00', '-2020-02-29',
+                             ' 2020-02-29 ', '2020-02-29T00:00:00', '0000-01-01', '10000-01-01'])),
+    ('DateTime', (lambda: DateTime, ['2020-02-29T10:00:00', '2020-02-29 10:00:00', '2020-02-29T10:00:00.123456789',
+                                     '2020-02-29T24:00:00', '2020-02-29T10:00:00z', '2020-02-29T10:00',
+                                     '2020-02-29T10:00:00+14:00', '2020-02-29T10:00:00+14:01', '2020-02-29T10:00:60',
+                                     ' 2020-02-29T10:00:00 ', '2020-02-29T10:00:00,5'])),
+    ('Time', (lambda: Time, ['10:00:00', '10:00', '24:00:00', '10:00:00Z', '10:00:00+05:00', '10:00:00.1234567', ' 10:00:00 ',
+                             '1:00:00'])),
+    ('Duration', (lambda: Duration, ['P1D', 'PT1S', 'P1Y', 'P1M', 'PT', 'P', '-P1D', 'P-1D', 'PT1.5S', 'P1DT', 'P1W', 'pt1s',
+                                     ' P1D ', 'PT1M30S', 'P0.5D'])),
+    ('Uuid', (lambda: Uuid, ['12345678-1234-5678-1234-567812345678', '12345678123456781234567812345678',
+                             '{12345678-1234-5678-1234-567812345678}', 'urn:uuid:12345678-1234-5678-1234-567812345678',
+                             '12345678-1234-5678-1234-56781234567', 'ABCDEF78-1234-5678-1234-567812345678',
+                             ' 12345678-1234-5678-1234-567812345678 '])),
+    ('ByteArray', (lambda: ByteArray, ['YWJj', 'YWJj\n', 'YW Jj', 'YWJ', 'YWJj=', '!!!!', '', 'YWI=', 'YWI', '-_-_'])),
+    ('Unicode', (lambda: Unicode, ['abc', '', ' abc ', 'a\tb'])),
+])
+
+# Open known finding C06-soft-lexical-leniency: literals on which the text decoders are deliberately or accidentally
+# more (or, for the special doubles, less) permissive than the XSD lexical space the schema publishes.  Listed one by one:
+# any other disagreement is a violation.
+LENIENT = {
+    ('Integer', ''), ('Integer', u'٥'), ('Integer', '5_000'), ('Decimal', '1e3'), ('Decimal', '1E+3'), ('Decimal', ''),
+    ('Decimal', u'١.٥'), ('Double', 'INF'), ('Double', '-INF'), ('Double', 'NaN'), ('Double', '1_0'), ('Double', ''),
+    ('Boolean', 'True'), ('Boolean', 'TRUE'), ('Boolean', ''), ('Date', '2020-2-9'), ('DateTime', '2020-02-29 10:00:00'),
+    ('DateTime', '2020-02-29T10:00:00z'), ('DateTime', '2020-02-29T10:00:00+14:01'), ('DateTime', '2020-02-29T10:00:00,5'),
+    ('Duration', 'PT'), ('Duration', 'P'), ('Duration', 'P1DT'), ('ByteArray', 'YWJj='),
+}
+
+
+@obligation('C06.lexical_verdicts', targets=['spyne.protocol.xml:XmlDocument.base_from_element',
+                                            'spyne.protocol._inbase:InProtocolBase.from_unicode'],
+            bounded="126 literals (canonical, redundant sign / zeros / whitespace, other alphabets, exponent and special "
+                    "values, out-of-range fields, near-miss spellings) of 12 primitive types, one element each",
+            desc="being a literal of the declared XSD datatype is a constraint both validators implement: a one-argument "
+                 "request carrying the literal is accepted by schema validation iff it is accepted by soft validation")
+def lexical_verdicts(c):
+    tname = c.choose(list(LEXICAL), 'type')
+    mk, lits = LEXICAL[tname]
+    lit = c.choose(lits, 'literal')
+    verdict = {}
+    for validator in ('lxml', 'soft'):
+        calls = []
+
+        def check(ctx, x):
+            calls.append(x)
+            return 1
+        check._pyvc_native = True
+        Svc = type(ServiceBase)('Svc', (ServiceBase,), {'check': rpc(mk(), _returns=Integer)(check)})
+        app = Application([Svc], TNS, name='VApp', in_protocol=XmlDocument(validator=validator), out_protocol=XmlDocument())
+        body = (u'<tns:check xmlns:tns="%s"><tns:x>%s</tns:x></tns:check>' % (TNS, lit)).encode('utf8')
+        out, seen, resp = _post(c, WsgiApplication(app), body)
+        c.check('callable_returns', out.returned, detail=repr(out))
+        if not out.returned:
+            return
+        verdict[validator] = (len(calls) == 1, repr(calls[0]) if calls else resp[-160:])
+    c.known_region('C06-soft-lexical-leniency', (tname, lit) in LENIENT)
+    c.check('lxml_and_soft_agree_on_lexical_form', verdict['lxml'][0] == verdict['soft'][0],
+            detail=dict(type=tname, literal=lit, lxml=verdict['lxml'], soft=verdict['soft']))
